@@ -74,7 +74,7 @@ def duckdb_may_retype(case):
 
 def features(case):
     s = case['sources'][0]
-    return {'kind:' + s['kind'] + (':' + s['null_style'] if 'null_style' in s else ''), 'na:' + ','.join(case['cfg'].get('na', ['<default>']))}
+    return {'kind:' + s['kind'] + (':' + s['null_style'] if 'null_style' in s else '') + (':nullable-dtypes' if s.get('dtypes') else ''), 'na:' + ','.join(case['cfg'].get('na', ['<default>']))}
 
 
 NULL_TOKENS = ['None', 'nan', '<NA>', 'NaT', 'NaN']
@@ -100,6 +100,36 @@ def run(ctx, res):
                         r[i] = None
                     elif k == 'xml' and isinstance(r[i], str) and (r[i].strip() != r[i] or '\t' in r[i]):
                         r[i] = 'w'
+        cases.append(c)
+    # a hierarchy over ONE source (child and parent triples map read the same table, joined on different columns): a NULL in a column
+    # that only one side references must suppress that side's statements only
+    for _ in range(ctx.scale(30, 400)):
+        n = ctx.rng.choice([2, 3, 4, 6])
+        ids = [str(i + 1) for i in range(n)]
+        rows = []
+        for i in range(n):
+            rows.append([ids[i], (None if ctx.rng.random() < 0.35 else ctx.rng.choice(ids)), (None if ctx.rng.random() < 0.35 else ctx.rng.choice(['n1', 'n2', 'x y'])),
+                         (None if ctx.rng.random() < 0.35 else ctx.rng.choice(['t1', 't2']))])
+        src = {'key': 'S0', 'kind': ctx.rng.choice(['csv', 'csv', 'tsv', 'json', 'parquet', 'sqlquery']), 'cols': ['id', 'boss', 'name', 'title'], 'rows': rows}
+        parent_subj = ctx.rng.choice([tm('templ', EX + 'p/{id}'), tm('templ', EX + 'p/{id}/{name}'), tm('templ', EX + 'p/{name}')])
+        child_subj = ctx.rng.choice([tm('templ', EX + 'c/{id}'), tm('templ', EX + 'c/{id}/{title}')])
+        doc = [{'id': EX + 'tm/C', 'src': 'S0', 'nonasserted': False, 'subj': child_subj, 'sjoins': [], 'classes': [], 'sgraphs': [],
+                'poms': [{'preds': [tm('const', EX + 'p/boss')], 'objs': [{'m': {'k': 'parent', 'v': EX + 'tm/P', 'ck': 'iri', 'tt': ''}, 'lang': None, 'dt': None, 'joins': [['boss', 'id']]}], 'graphs': []}]},
+               {'id': EX + 'tm/P', 'src': 'S0', 'nonasserted': False, 'subj': parent_subj, 'sjoins': [], 'classes': [], 'sgraphs': [],
+                'poms': [{'preds': [tm('const', EX + 'p/title')], 'objs': [{'m': tm('ref', 'title'), 'lang': None, 'dt': None, 'joins': []}], 'graphs': []}]}]
+        cases.append({'cfg': {'nquads': ctx.rng.random() < 0.5, 'mode': ctx.rng.choice(['NO', 'PARTIAL-AGGREGATIONS'])}, 'sources': [src], 'doc': doc})
+    # in-memory frames with pandas nullable dtypes: a NULL is pd.NA in an Int64 / boolean / string column
+    for _ in range(ctx.scale(30, 500)):
+        n = ctx.rng.choice([1, 2, 3, 5])
+        rows = []
+        for i in range(n):
+            rows.append([str(i + 1),
+                         None if ctx.rng.random() < 0.3 else ('i', ctx.rng.choice([0, 1, 7, 10, -3, 2024])),
+                         None if ctx.rng.random() < 0.3 else ('b', ctx.rng.random() < 0.5),
+                         None if ctx.rng.random() < 0.3 else ctx.rng.choice(['a', 'x y', 'é', 'nan', 'None', 'v1'])])
+        c = gen_null_case(ctx.rng, kind='frame')
+        c['sources'][0].update({'cols': ['id', 'c1', 'c2', 'c3'], 'rows': rows, 'dtypes': {'c1': 'Int64', 'c2': 'boolean', 'c3': 'string'}})
+        c['sources'][0].pop('null_style', None)
         cases.append(c)
     family.run_family(ctx, res, cases, features)
     # second oracle on the same cases, implementation only: a null word that is not in the data must not appear
